@@ -7,11 +7,11 @@ C = Const
 TYPES = {
     'va': 'u8', 'vb': 'u8', 'vc': 'u8', 'vd': 'u8', 'sa': 's8', 'sb': 's8', 'sc': 's8',
     'wa': 'u16', 'wb': 'u16', 'wc': 'u16', 'ha': 's16', 'hb': 's16', 'hc': 's16',
-    'ks': 's8', 'ku': 'u8', 'kw': 's16',
+    'ks': 's8', 'ku': 'u8', 'kw': 's16', 'pa': 'pc8', 'pb': 'pc8', 'pw': 'pi16', 'px': 'ps16',
     'arr': ('arr', 'u8', 4), 'brr': ('arr', 'u8', 4), 'sarr': ('arr', 's8', 4), 'warr': ('arr', 'u16', 3), 'pp': 'ptr', 'pq': 'ptr',
 }
 CONST_INITS = {'ks': -2, 'ku': 200, 'kw': -300}
-ORDER = ['ks', 'ku', 'kw', 'va', 'vb', 'vc', 'vd', 'sa', 'sb', 'sc', 'wa', 'wb', 'wc', 'ha', 'hb', 'hc', 'arr', 'brr', 'sarr', 'warr', 'pp', 'pq']
+ORDER = ['ks', 'ku', 'kw', 'pa', 'pb', 'pw', 'px', 'va', 'vb', 'vc', 'vd', 'sa', 'sb', 'sc', 'wa', 'wb', 'wc', 'ha', 'hb', 'hc', 'arr', 'brr', 'sarr', 'warr', 'pp', 'pq']
 REGS = ('X', 'Y')
 BOUNDARY = [0, 1, 2, 7, 8, 127, 128, 255]
 BOUNDARY16 = [0, 1, 255, 256, 257, 0x7fff, 0x8000, 0xffff]
